@@ -18,6 +18,7 @@ func init() {
 		pkgs := []*packages.Package{c.Pkg("fp"), c.Pkg("option"), c.Pkg("try"), c.Pkg("either"), c.Pkg("statet"), c.Pkg("seq"), c.Pkg("iterator"), c.Pkg("list")}
 		Short(c, "R-SHORT", pkgs)
 		FoldStop(c, "R-FOLDSTOP", pkgs, 4)
+		RunOnce(c, "R-RUNONCE", c.Pkg("fp"), 10)
 		Supplier(c, "R-SUPPLIER", []*packages.Package{c.Pkg("option"), c.Pkg("try"), c.Pkg("either"), c.Pkg("statet"), c.Pkg("future")})
 		EffOrder(c, "R-EFFORDER", []*packages.Package{c.Pkg("option"), c.Pkg("try"), c.Pkg("either"), c.Pkg("future"), c.Pkg("statet")})
 		PanicCapture(c, "R-PANIC", libPkgs(c), map[string]bool{"try.Of": true, "try.Call": true, "try.CallUnit": true, "future.Apply": true, "future.Apply2": true})
